@@ -26,7 +26,7 @@ RULE = ('pairs (form, one-token neighbour) over random forms of the C01/C06 gene
         'a case is one base form with all its neighbours / one history / one freshness run; non-trivial if at least one pair or request was decided')
 MIN_NONTRIVIAL = {'quick': 250, 'thorough': 6000}
 REQUIRED_COUNTERS = ['pairs:decided', 'pairs:key_differs', 'history:requests', 'history:cache_hits', 'history:preseeded_hits', 'freshness:classes_compared',
-                     'freshness:generic_compared', 'modname:sources', 'real_compile:requests', 'hook:compile_cython_module']
+                     'freshness:generic_compared', 'modname:sources', 'real_compile:requests', 'hook:compile_cython_module', 'multi:classes']
 ASSUMPTIONS = ['"identical code" is decided on the generated Cython text: byte equality, else equality of a normal form (storage slots named by their variables, temporaries renamed to a '
                'digest of their definitions, lines sorted, temporaries assigned before use): the generator numbers temporaries in an identity-hash dependent order, so two generations of one form differ by such a renaming',
                'neighbours the compiler rejects or cannot generate code for are skipped (counted)']
@@ -45,6 +45,8 @@ def cases(tier, seed):
         yield {'kind': 'pairs', 'seed': seed, 'idx': i}
     for i in range({'quick': 64, 'thorough': 1200}[tier]):
         yield {'kind': 'history', 'seed': seed, 'idx': i}
+    for i in range({'quick': 6, 'thorough': 80}[tier]):
+        yield {'kind': 'multi', 'seed': seed, 'idx': i}
 
 # ---- text normal form -------------------------------------------------------------------------------------
 def same_code(a, b):
@@ -124,6 +126,11 @@ def _split_classes(src):
             cur = m.group(1); buf = []
         if cur is not None: buf.append(line)
     if cur: out[cur] = '\n'.join(buf)
+    # module-level comment lines between two classes (the parameter table printed ahead of the next class) belong to neither
+    for k, v in out.items():
+        ls = v.split('\n')
+        while ls and (not ls[-1].strip() or ls[-1].startswith('#')): ls.pop()
+        out[k] = '\n'.join(ls)
     return out
 
 # ---- histories -------------------------------------------------------------------------------------------------
@@ -313,10 +320,54 @@ def _real(rec, case):
                         {'got': val, 'expected': ref})
     return n
 
+def _multi(rec, case):
+    """compile_vforms: every class of the returned tuple implements the form at its position (lists of up to 14 forms)."""
+    import types
+    from forms import gen, build
+    from verif.gen import rng_for
+    from pyiga import compile as C
+    rng = rng_for('C13m', case['seed'], case['idx'])
+    nforms = int(rng.integers(2, 15)) if case['idx'] % 2 else int(rng.integers(11, 15))
+    descs = []
+    while len(descs) < nforms:
+        d = gen.random_form(rng, depth=int(rng.integers(1, 3)))
+        try: C.generate(build.make_vform(d))
+        except Exception: continue
+        descs.append(d)
+    orig = C.compile_cython_module
+    def stub(src, verbose=False):
+        rec.count('hook:compile_cython_module')
+        mod = types.ModuleType('stubmod')
+        from forms import canon
+        for name, text in _split_classes(src).items():
+            setattr(mod, name, type(name, (), {'source': text}))
+        mod.source = src
+        return mod
+    C.compile_cython_module = stub
+    try:
+        classes = C.compile_vforms([build.make_vform(d) for d in descs])
+    finally:
+        C.compile_cython_module = orig
+    sig = {'oracle': 'compile_vforms returns the class of form i at position i', 'more_than_10_forms': nforms > 10}
+    if len(classes) != nforms:
+        rec.violation(dict(sig, what='length'), case, {'got': len(classes), 'want': nforms}); return 0
+    n = 0
+    for i, (cls, d) in enumerate(zip(classes, descs)):
+        exp = _split_classes(C.generate(build.make_vform(d))).get('CustomAssembler', '')
+        got = getattr(cls, 'source', '')
+        name = got.split('(')[0].replace('cdef class ', '').strip() if got else ''
+        n += 1; rec.count('multi:classes')
+        if same_code(exp.replace('CustomAssembler', 'X_'), got.replace(name, 'X_') if name else got) is None:
+            rec.violation(sig, dict(case, position=i, nforms=nforms), {'position': i, 'class_returned': name, 'first_difference': _first_diff(exp.replace('CustomAssembler', 'X_'), got.replace(name, 'X_') if name else got)})
+            break
+    return n
+
 def run_case(rec, case):
     from forms import gen
     from verif.gen import rng_for
     kind = case['kind']
+    if kind == 'multi':
+        n = _multi(rec, case); rec.case(case, nontrivial=bool(n)); return
     if kind == 'freshness': n = _freshness(rec, case)
     elif kind == 'modname': n = _modname(rec, case)
     elif kind == 'real': n = _real(rec, case)
